@@ -377,7 +377,7 @@ def _to_bits(ip, st, t, a, rt):
 
 @reg('core::f64::<impl f64>::is_finite')
 def _is_finite(ip, st, t, a, rt):
-    return I.B('atom', nf.app_atom('is_finite', as_rf(a[0])).key)
+    return I.B('atom', nf.app_atom('is_finite', as_rf(a[0])))
 
 
 @reg('std::f64::<impl f64>::powi')
@@ -463,7 +463,7 @@ def opt_is_some(v):
         return I.FALSE
     if k == 'ite':
         return I.ite(p.c, opt_is_some(p.a), opt_is_some(p.b))
-    return I.B('atom', nf.app_atom('is_some', I.vkey(p)).key)
+    return I.B('atom', nf.app_atom('is_some', I.frozen(p)))
 
 
 def opt_payload(v, ty='?'):
@@ -497,7 +497,7 @@ def _expect(ip, st, t, a, rt):
     if k == 'sym' and not isinstance(p, I.Sym):
         return p
     if k == 'sym':
-        at = nf.app_atom('unwrap', I.vkey(p))
+        at = nf.app_atom('unwrap', I.frozen(p))
         return I.mk_sym(at, rt)
     return opt_payload(v, rt)
 
@@ -593,3 +593,33 @@ def _typeid(ip, st, t, a, rt):
 @regx(r'^(core::panicking::|std::rt::begin_panic|core::option::expect_failed|core::result::unwrap_failed)')
 def _panic(ip, st, t, a, rt):
     raise I.Diverge()
+
+
+# --- vec! expansion: Box::new_uninit + write through the raw pointer + box_assume_init_into_vec_unsafe ---
+@reg('std::boxed::Box::<T>::new_uninit')
+def _box_new_uninit(ip, st, t, a, rt):
+    cell = ip.new_cell(None, rt, 'box')
+    return I.St('Box', None, {0: I.St('Unique', None, {'pointer': I.Ref(I.LV(cell), True)})})
+
+
+@reg('std::boxed::box_assume_init_into_vec_unsafe')
+def _box_into_vec(ip, st, t, a, rt):
+    b = deref(a[0]) if isinstance(a[0], I.Ref) else a[0]
+    ptr = I.get_field(I.get_field(b, 0), 'pointer')
+    v = I.read_lv(ptr.lv)
+    for f in ('value', 'value', 0):
+        v = I.get_field(v, f)
+    return v
+
+
+@reg('std::vec::from_elem')
+def _from_elem(ip, st, t, a, rt):
+    n = as_rf(a[1])
+    if n.is_const() and n.const_value() <= 16:
+        return I.arr([a[0]] * int(n.const_value()))
+    return I.Sym(nf.app_atom('from_elem', I.frozen(a[0]), n), rt)
+
+
+@reg('std::boxed::Box::<T>::new')
+def _box_new(ip, st, t, a, rt):
+    return a[0]
